@@ -4,6 +4,11 @@ pub mod c01;
 pub mod c02;
 pub mod c03;
 pub mod c04;
+pub mod c05;
+pub mod c06;
+pub mod c07;
+pub mod c10;
+pub mod c11;
 pub mod c12;
 pub mod c13;
 pub mod c14;
@@ -45,9 +50,10 @@ pub fn pool_shard(
         m.init(&mut w, &mut rep);
     }
     let mut obs = observe(&w);
+    let mut fobs = crate::wfarm::fobserve(&w);
     for i in 0..n_ops {
         let op = gen.next(&w, &obs);
-        drive_one(&mut w, &op, i, &mut obs, &mut monitors, &mut rep);
+        drive_one(&mut w, &op, i, &mut obs, &mut fobs, &mut monitors, &mut rep);
         rep.transitions += 1;
         if i % 4 == 0 {
             rep.states.insert(hash_of(&w.state().data));
@@ -57,6 +63,50 @@ pub fn pool_shard(
         m.finish(&mut w, &mut rep);
     }
     rep
+}
+
+/// One shard of the W-farm workload with the given monitors.
+pub fn farm_shard(
+    cfg: &RunCfg,
+    shard: usize,
+    n_ops: usize,
+    mut monitors: Vec<Box<dyn Monitor>>,
+    tune: &dyn Fn(&mut crate::wfarm::FarmGen, &mut WorldCfg),
+) -> Reporter {
+    let mut rep = Reporter::new(&cfg.property);
+    let seed = cfg.seed.wrapping_mul(1_000_033).wrapping_add(shard as u64);
+    let mut gen = crate::wfarm::FarmGen::new(seed);
+    let mut wcfg = WorldCfg::default();
+    // vary the farm configuration across shards
+    wcfg.max_concurrent_farms = 2 + (shard as u32 % 2);
+    wcfg.emergency_unlock_penalty = [cosmwasm_std::Decimal::percent(10), cosmwasm_std::Decimal::percent(2), cosmwasm_std::Decimal::percent(50), cosmwasm_std::Decimal::percent(100)][shard % 4];
+    wcfg.farm_fee = [cosmwasm_std::coin(1_000, "uom"), cosmwasm_std::coin(0, "uom"), cosmwasm_std::coin(500, "uusdt")][shard % 3].clone();
+    tune(&mut gen, &mut wcfg);
+    let mut w = World::new(wcfg);
+    set_ctx(format!("workload=W-farm seed={} shard={} (generator seed {})", cfg.seed, shard, seed));
+    gen.scripted_prefix(&w);
+    for m in monitors.iter_mut() {
+        m.init(&mut w, &mut rep);
+    }
+    let mut obs = observe(&w);
+    let mut fobs = crate::wfarm::fobserve(&w);
+    for i in 0..n_ops {
+        let op = gen.next(&w, &obs, &fobs);
+        drive_one(&mut w, &op, i, &mut obs, &mut fobs, &mut monitors, &mut rep);
+        rep.transitions += 1;
+        if i % 4 == 0 {
+            rep.states.insert(hash_of(&w.state().data));
+        }
+    }
+    for m in monitors.iter_mut() {
+        m.finish(&mut w, &mut rep);
+    }
+    rep
+}
+
+fn fin(mut rep: Reporter, cfg: &RunCfg, level: &str, rule: &str, assumptions: &[&str], t0: Instant, extra: serde_json::Value) -> i32 {
+    crate::pinned::run_pinned(&cfg.property, &mut rep);
+    rep.finish(&cfg.tier, cfg.seed, level, rule, assumptions, t0.elapsed().as_secs_f64(), extra)
 }
 
 pub fn run(cfg: &RunCfg, t0: Instant) -> i32 {
@@ -70,13 +120,10 @@ pub fn run(cfg: &RunCfg, t0: Instant) -> i32 {
             let mut rep = rep;
             rep.floor("backing", 1_000);
             rep.floor("lp_held", 100);
-            rep.finish(
-                &cfg.tier,
-                cfg.seed,
-                "exploration",
+            fin(rep, cfg, "exploration",
                 "W-pool: seeded random interleaving of 7 accounts' messages (swaps, routes, deposits of every shape, single-asset and locked deposits, withdrawals, pool creations, donations, config changes, malformed messages) over 6+ pools sharing denoms; the backing identity is evaluated after every message; distinct = (message kind, outcome, #pools, max pools sharing a denom)",
                 &[ASSUME_CHAIN, ASSUME_BOUNDS],
-                t0.elapsed().as_secs_f64(),
+                t0,
                 json!({"shards": shards, "ops_per_shard": n}),
             )
         }
@@ -91,13 +138,10 @@ pub fn run(cfg: &RunCfg, t0: Instant) -> i32 {
             rep.floor("cp_k", 500);
             rep.floor("ss_D", 500);
             rep.floor("round_trip", 200);
-            rep.finish(
-                &cfg.tier,
-                cfg.seed,
-                "exploration",
+            fin(rep, cfg, "exploration",
                 "W-pool (swap-heavy mix): every executed hop (direct, routed, internal swap of single-asset deposits) is judged with exact big-integer x*y resp. exact Curve D from the reserves before/after; every 6th step a forked there-and-back trade (1-3 pools, proceeds returned in 1-4 chunks) is executed and the trader's balance compared; distinct = (pool, direction, offer magnitude, path)",
                 &[ASSUME_CHAIN, ASSUME_BOUNDS, "exact D resolved to 1e-6 of a normalised smallest unit; a decrease below that resolution is not reported"],
-                t0.elapsed().as_secs_f64(),
+                t0,
                 json!({"shards": shards, "ops_per_shard": n}),
             )
         }
@@ -113,13 +157,10 @@ pub fn run(cfg: &RunCfg, t0: Instant) -> i32 {
             rep.floor("bank_slice", 500);
             rep.floor("nobody_else", 500);
             rep.floor("route_chaining", 100);
-            rep.finish(
-                &cfg.tier,
-                cfg.seed,
-                "exploration",
+            fin(rep, cfg, "exploration",
                 "W-pool (swap/route-heavy mix, fee structures 0..20% with several extra fees, receivers = sender/other user/contract account/fee collector/invalid): for every executed hop the reserve identity and 'each fee = floor(G x share) for one gross G' are checked; for every direct and routed swap the bank-event slice is matched against the exact multiset the swap must cause and every known account's balance change must be explained by it; distinct = (pool, routed, zero-fee pattern, magnitude, #fees) / (kind, hops, receiver class)",
                 &[ASSUME_CHAIN, ASSUME_BOUNDS],
-                t0.elapsed().as_secs_f64(),
+                t0,
                 json!({"shards": shards, "ops_per_shard": n}),
             )
         }
@@ -137,13 +178,10 @@ pub fn run(cfg: &RunCfg, t0: Instant) -> i32 {
             rep.floor("withdraw_bounds", 500);
             rep.floor("redeemable", 300);
             rep.floor("min_liquidity", 1_000);
-            rep.finish(
-                &cfg.tier,
-                cfg.seed,
-                "exploration",
+            fin(rep, cfg, "exploration",
                 "W-pool (deposit/withdraw-heavy mix: balanced, skewed, partial-set, dust, single-asset, locked deposits; withdrawals from 1 unit to everything): every LP supply change is attributed to a deposit/withdrawal of that pool; every deposit transition is checked against the exact share bound (constant product: cross-multiplied min-share and sqrt(xy)/S; stableswap: exact big-integer D before/after with the statement's 2-unit granularity); every withdrawal against reserve x burned / supply; every 3rd step a forked redemption of a random LP amount; distinct = (pool, first?, magnitude, deposit shape)",
                 &[ASSUME_CHAIN, ASSUME_BOUNDS],
-                t0.elapsed().as_secs_f64(),
+                t0,
                 json!({"shards": shards, "ops_per_shard": n}),
             )
         }
@@ -158,13 +196,10 @@ pub fn run(cfg: &RunCfg, t0: Instant) -> i32 {
             rep.floor("sim_eq_swap", 800);
             rep.floor("route_eq", 300);
             rep.floor("reverse_cp", 500);
-            rep.finish(
-                &cfg.tier,
-                cfg.seed,
-                "exploration",
+            fin(rep, cfg, "exploration",
                 "W-pool: for every generated Swap the state is forked, Simulation is queried and the same offer executed (50% tolerance): return, the four fee figures and the receiver's balance change must equal the quote; same for every simple route vs SimulateSwapOperations; every 2nd step ReverseSimulation on a random constant-product pool/ask and Simulation(quote+1) >= ask; distinct = (pool, offer denom, magnitude, outcome)",
                 &[ASSUME_CHAIN, ASSUME_BOUNDS],
-                t0.elapsed().as_secs_f64(),
+                t0,
                 json!({"shards": shards, "ops_per_shard": n}),
             )
         }
@@ -183,13 +218,10 @@ pub fn run(cfg: &RunCfg, t0: Instant) -> i32 {
             rep.floor("deposit_tol_cp", 50);
             rep.floor("monotone", 300);
             rep.floor("reject_is_noop", 500);
-            rep.finish(
-                &cfg.tier,
-                cfg.seed,
-                "exploration",
+            fin(rep, cfg, "exploration",
                 "W-pool (swap/deposit-heavy, tolerances None/0/boundary/50%/>50%/>100%, belief prices around the pool price and 0, minimum_receive below/at/above): every direct swap's accept/reject decision is compared with an independently evaluated exact-rational predicate outside a boundary band equal to the floor granularity; every 4th step forked probes: exact-proportion deposits under tolerances {0,0.1%,10%,50%,100%} and >100%, monotonicity of the decision in the tolerance for swaps and constant-product deposits; state equality after every rejected trade; distinct = (pool, direction, magnitude, decision, tolerance)",
                 &[ASSUME_CHAIN, ASSUME_BOUNDS, "decisions inside the boundary band (rounding granularity of the contract's own fixed-point) are counted, not judged"],
-                t0.elapsed().as_secs_f64(),
+                t0,
                 json!({"shards": shards, "ops_per_shard": n}),
             )
         }
@@ -206,13 +238,10 @@ pub fn run(cfg: &RunCfg, t0: Instant) -> i32 {
             rep.floor("refused_when", 30);
             rep.floor("no_lock_for_others", 30);
             rep.floor("atomic", 500);
-            rep.finish(
-                &cfg.tier,
-                cfg.seed,
-                "fault_enumeration",
+            fin(rep, cfg, "fault_enumeration",
                 "W-pool (single-asset-heavy: odd/even amounts, both pool types, receivers, lock options, own/foreign/new position ids, slippage settings): every single-asset deposit is compared, from the same forked state, with the manual swap-half-then-deposit sequence (LP/position, reserves, supply, fee collector, burned supply, user balance modulo the odd unit); for every 3rd accepted one a failure is injected at EACH of its internal chain calls (contract entries, replies, bank sends/burns/mints, token-factory calls) and with swaps disabled, and the chain state must be bit-identical to the pre-state; the temporary buffer key is looked up after every message; distinct = (pool, denom, magnitude, parity, lock, failed call kind and index)",
                 &[ASSUME_CHAIN, ASSUME_BOUNDS, "one injected failure per execution"],
-                t0.elapsed().as_secs_f64(),
+                t0,
                 json!({"shards": shards, "ops_per_shard": n}),
             )
         }
@@ -229,13 +258,10 @@ pub fn run(cfg: &RunCfg, t0: Instant) -> i32 {
             rep.floor("validity", 300);
             rep.floor("unique", 20);
             rep.floor("immutable", 5_000);
-            rep.finish(
-                &cfg.tier,
-                cfg.seed,
-                "exploration",
+            fin(rep, cfg, "exploration",
                 "W-pool (creation-heavy: valid pools and each invalid class — asset count, duplicate denoms, decimals length, amp 0, fee >= 100%, total > 20%, identifier charset/length, missing/over/extra funds — interleaved with all other operations and config changes); every creation attempt is compared with an independent well-formedness + exact-payment predicate; every 25th step a forked payment matrix: 5 token-factory fee configurations x 3 creation-fee settings x 7 fund variants with the bank slice of each accepted one; identifiers/LP denoms pairwise distinct and first-seen (assets, decimals, type, fees, LP denom) unchanged after every message; distinct = (class, #assets, type, decision) / (variant, fee configuration)",
                 &[ASSUME_CHAIN, ASSUME_BOUNDS],
-                t0.elapsed().as_secs_f64(),
+                t0,
                 json!({"shards": shards, "ops_per_shard": n}),
             )
         }
@@ -251,13 +277,10 @@ pub fn run(cfg: &RunCfg, t0: Instant) -> i32 {
             rep.floor("other_pool", 500);
             rep.floor("re_enabled", 200);
             rep.floor("new_pools_enabled", 6);
-            rep.finish(
-                &cfg.tier,
-                cfg.seed,
-                "exploration",
+            fin(rep, cfg, "exploration",
                 "W-pool with frequent toggling; every 40th step a forked probe on a random funded pool: all 8 switch combinations (set in one message or field-by-field in random order) x {direct swap, route with the pool first/middle/last, single-asset deposit, single-asset locked deposit, deposit, locked deposit, withdrawal} + {swap, deposit, withdrawal on another pool}; decision must equal (reference decision with everything enabled) AND (needed switches on), effects of allowed operations (all reserves, supplies, balances, positions) must equal the reference fork, refused ones must leave the state identical, and after re-enabling everything equals the reference; distinct = (action, combination, pool type, decision)",
                 &[ASSUME_CHAIN, ASSUME_BOUNDS],
-                t0.elapsed().as_secs_f64(),
+                t0,
                 json!({"shards": shards, "ops_per_shard": n}),
             )
         }
@@ -271,13 +294,10 @@ pub fn run(cfg: &RunCfg, t0: Instant) -> i32 {
             rep.floor("start_formula", 1_000);
             rep.floor("before_genesis_fails", 100);
             rep.floor("config_validation", 1_000);
-            rep.finish(
-                &cfg.tier,
-                cfg.seed,
-                "exploration",
+            fin(rep, cfg, "exploration",
                 "W-epoch: epoch-manager instances with random (genesis, duration) incl. genesis = now, genesis near u64::MAX, durations from one day to u64::MAX/k, block times at genesis-1, genesis, sampled boundaries k*duration -1/0/+1 (k up to 2^32), random inner points and the largest representable block time; every answer is compared with u128 arithmetic (id, start in nanoseconds, containment, +1 per boundary), overflowing cases must fail and never return a wrapped value; instantiate/update validation incl. non-owner; distinct = (position relative to boundary, magnitudes of duration/now/genesis)",
                 &[ASSUME_CHAIN, ASSUME_BOUNDS, "block time limited to u64 nanoseconds (chain representation)"],
-                t0.elapsed().as_secs_f64(),
+                t0,
                 json!({"shards": shards, "instances_per_shard": n}),
             )
         }
@@ -289,14 +309,92 @@ pub fn run(cfg: &RunCfg, t0: Instant) -> i32 {
             rep.floor("d_accuracy", 3_000);
             rep.floor("never_exceeds_reserve", 10_000);
             rep.floor("fails_cleanly", 100);
-            rep.finish(
-                &cfg.tier,
-                cfg.seed,
-                "exploration",
+            fin(rep, cfg, "exploration",
                 "W-kernel: the production functions compute_swap (swap/quote path) and compute_d_with_pool_info (mint path) called on generated pool states: 2-4 assets, decimals from {6,8,12,18} and extremes {0,1,2}, amplification 1..1e6 (log-uniform + the deployed values), reserves 1 unit..1e30 with skew up to 1000:1, offers 1 unit..3x the reserve, zero and non-zero fee structures; each quote's gross output is compared with the exact big-integer solution of the Curve invariant (band: 2 ask units + exact value of 2 offered units), each mint-path D with the exact root (band 2); errors/aborts are counted per cause; distinct = (#assets, decimals tuple, magnitudes of amp/offer/reserve, direction)",
                 &[ASSUME_BOUNDS, "functions are called natively at their pub boundary (same code the Simulation query and the deposit path execute)", "exact reference resolved to 1e-6 of a normalised smallest unit"],
-                t0.elapsed().as_secs_f64(),
+                t0,
                 json!({"shards": shards, "pools_per_shard": n}),
+            )
+        }
+        "C05" => {
+            let shards = cfg.pick(4, 32);
+            let n = cfg.pick(2_500, 12_000);
+            let mut rep = crate::run_shards(cfg, shards, |s| farm_shard(cfg, s, n, vec![Box::new(c05::C05::new(cfg.seed * 37 + s as u64))], &|_, _| {}));
+            rep.floor("custody", 2_000);
+            rep.floor("drain_everything", 30);
+            fin(rep, cfg, "exploration",
+                "W-farm: seeded interleaving of 7 accounts' farm create/expand/close, position create/expand/close (full, partial)/withdraw/emergency withdraw, claims with and without until_epoch, locked deposits through the pool manager, config changes, donations and time advances (seconds around epoch boundaries and unlock instants, whole epochs, jumps past farm expiry); rewards are paid in plain tokens, in another pool's LP token and in the locked LP token itself; after every message balance(farm manager, d) >= sum of positions + sum of (funded - claimed) over live farms (positions/farms decoded completely from raw storage); every 60th step a fork drains everything in random order; distinct = (message kind, outcome, #positions, #farms, LP-reward present)",
+                &[ASSUME_CHAIN, ASSUME_BOUNDS],
+                t0,
+                json!({"shards": shards, "ops_per_shard": n}),
+            )
+        }
+        "C10" => {
+            let shards = cfg.pick(4, 32);
+            let n = cfg.pick(2_500, 12_000);
+            let mut rep = crate::run_shards(cfg, shards, |s| farm_shard(cfg, s, n, vec![Box::new(c10::C10::new(cfg.seed * 41 + s as u64))], &|g, _| {
+                g.weights = [12, 4, 2, 2, 20, 10, 14, 6, 6, 14, 2, 1, 6, 2];
+            }));
+            rep.floor("total_ge_sum", 2_000);
+            rep.floor("no_open_no_weight", 2_000);
+            rep.floor("curve", 150);
+            rep.floor("takes_effect_next_epoch", 300);
+            fin(rep, cfg, "exploration",
+                "W-farm (position-heavy mix: amounts 1 unit..1e20 incl. amounts whose fractional multiplier rounds, durations 1 day..1 year incl. the three anchors, pieces, partial closes, emergency exits): after every message, for every LP token and for the running and the pending epoch, the weight in effect (latest snapshot at or before the epoch, all snapshots decoded from raw storage) of the contract must be >= the sum over all users, equal while no pieces were involved; users without open positions have no weight; every fresh single-position weight is compared with the exact rational Lagrange curve (slack 1 + amount*1e-16), bounds [1x,16x] and pairwise monotonicity over everything seen; forked sweeps vary one argument at a time; distinct = (LP, epoch kind, #users, message kind) / (magnitude, duration bucket)",
+                &[ASSUME_CHAIN, ASSUME_BOUNDS],
+                t0,
+                json!({"shards": shards, "ops_per_shard": n}),
+            )
+        }
+        "C11" => {
+            let shards = cfg.pick(4, 32);
+            let n = cfg.pick(2_500, 12_000);
+            let mut rep = crate::run_shards(cfg, shards, |s| farm_shard(cfg, s, n, vec![Box::new(c11::C11::new(cfg.seed * 43 + s as u64))], &|g, _| {
+                g.weights = [16, 22, 10, 8, 8, 2, 4, 2, 2, 10, 6, 1, 2, 3];
+            }));
+            rep.floor("create_conservation", 200);
+            rep.floor("create_exact_payment_accepted", 30);
+            rep.floor("create_takes_exactly", 100);
+            rep.floor("expand", 50);
+            rep.floor("close", 100);
+            rep.floor("limit", 1_000);
+            fin(rep, cfg, "exploration",
+                "W-farm (farm-heavy mix: fee configurations zero/in the reward denom/in another denom switched by the owner, exact/over/under/extra-coin payments, explicit/generated/colliding identifiers, start/end inside and outside the allowed buffer, expansions by owner and strangers with multiples and non-multiples of the emission rate before/at/after the end, closes by owner/contract owner/stranger, creations after expiry that auto-close): the bank-event slice of every accepted creation/expansion/close is matched against the exact expected movements; forked exact-payment probes per fee configuration; per-LP count of unexpired farms (own expiry computation) <= limit after every message; distinct = (fee class, auto-closed, identifier kind, #coins)",
+                &[ASSUME_CHAIN, ASSUME_BOUNDS],
+                t0,
+                json!({"shards": shards, "ops_per_shard": n}),
+            )
+        }
+        "C06" => {
+            let shards = cfg.pick(4, 32);
+            let n = cfg.pick(3_000, 14_000);
+            let mut rep = crate::run_shards(cfg, shards, |s| farm_shard(cfg, s, n, vec![Box::new(c06::C06::default())], &|g, _| {
+                g.weights = [18, 8, 3, 2, 12, 6, 8, 4, 3, 26, 1, 1, 3, 2];
+            }));
+            rep.floor("no_overpay", 400);
+            rep.floor("cumulative_bound", 2_000);
+            rep.floor("no_starvation", 400);
+            fin(rep, cfg, "exploration",
+                "W-farm (claim-heavy mix; until_epoch = none / current / last claimed / in between / future / before the last claim): an independent ledger records, per user and LP token, the weight in effect per epoch from the observed effect of each position operation (never from the claim path) and its own claim cursor; every successful claim's bank delta per reward denom must be <= the sum over farm-epochs of floor(emission x weight / max(total, sum of users)); a claim refused as 'farm exhausted' although the ledger says it is affordable is starvation; per farm claimed <= rate x elapsed epochs and <= budget after every message; distinct = (until given, cursor present, span, #denoms)",
+                &[ASSUME_CHAIN, ASSUME_BOUNDS],
+                t0,
+                json!({"shards": shards, "ops_per_shard": n}),
+            )
+        }
+        "C07" => {
+            let shards = cfg.pick(4, 32);
+            let n = cfg.pick(3_000, 14_000);
+            let mut rep = crate::run_shards(cfg, shards, |s| farm_shard(cfg, s, n, vec![Box::new(c07::C07::new(cfg.seed * 53 + s as u64))], &|g, _| {
+                g.weights = [18, 8, 3, 2, 12, 6, 8, 4, 3, 26, 1, 1, 3, 2];
+            }));
+            rep.floor("query_equals_claim", 600);
+            rep.floor("share_exact", 200);
+            rep.floor("schedule_independence", 10);
+            fin(rep, cfg, "exploration",
+                "W-farm (claim-heavy mix, users holding several LP tokens, several farms per LP token): before every claim the Rewards query is evaluated on the forked pre-state and compared with the claim's bank delta; every payment is compared with the ledger's sum over farm-epochs of floor(emission x user weight / contract total weight) (never more; less by under one unit per farm-epoch); every 120th step a frozen future (2-7 epochs, other users opening/topping up positions) is replayed from one snapshot under three claim schedules for one user (every epoch / once at the end / random split with until_epoch) and cumulative payouts per denom, and every other user's pending rewards, must coincide; distinct = (span, #denoms, cursor, until given)",
+                &[ASSUME_CHAIN, ASSUME_BOUNDS],
+                t0,
+                json!({"shards": shards, "ops_per_shard": n}),
             )
         }
         other => {
